@@ -105,3 +105,95 @@ Section Ind.
           (opt o) (opt f)
     end.
 End Ind.
+
+(* ---- while / try ---- *)
+Definition ctwo (o : list hexpr) : list hexpr -> result -> option result -> cst -> result * cst :=
+  fix two (es : list hexpr) (acc : result) (last : option result) (c : cst) {struct es} : result * cst :=
+  match es with
+  | [] => cbranch o acc last c
+  | x :: r =>
+      let acc1 := match last with Some l => radd acc (expr_as_stmt l) | None => acc end in
+      let '(rx, c1) := compile x c in
+      two r (radd acc1 rx) (Some rx) c1
+  end.
+Lemma ctwo_nil o acc last c : ctwo o [] acc last c = cbranch o acc last c.
+Proof. reflexivity. Qed.
+Lemma ctwo_cons o x r acc last c :
+  ctwo o (x :: r) acc last c =
+  let acc1 := match last with Some l => radd acc (expr_as_stmt l) | None => acc end in
+  let '(rx, c1) := compile x c in ctwo o r (radd acc1 rx) (Some rx) c1.
+Proof. reflexivity. Qed.
+
+Definition cchs (rv : ident) : list (htypes * list hexpr) -> cst -> list (htypes * list pstmt) * cst :=
+  fix chs (hs : list (htypes * list hexpr)) (c : cst) {struct hs} : list (htypes * list pstmt) * cst :=
+  match hs with
+  | [] => ([], c)
+  | (ty, eb) :: r =>
+      let '(reb, c1) := cbranch eb rempty None c in
+      let '(rest, c2) := chs r c1 in
+      ((ty, rs reb ++ [SAssign rv (force reb)]) :: rest, c2)
+  end.
+Lemma cchs_nil rv c : cchs rv [] c = ([], c).
+Proof. reflexivity. Qed.
+Lemma cchs_cons rv ty eb r c :
+  cchs rv ((ty, eb) :: r) c =
+  let '(reb, c1) := cbranch eb rempty None c in
+  let '(rest, c2) := cchs rv r c1 in
+  ((ty, rs reb ++ [SAssign rv (force reb)]) :: rest, c2).
+Proof. reflexivity. Qed.
+
+Lemma compile_while cnd body orelse c :
+  compile (HWhile cnd body orelse) c =
+  let '(rc, c1) := compile cnd c in
+  let '(rb0, c2) := cbranch body rempty None c1 in
+  let body_stmts := or_pass (rs (radd rb0 (expr_as_stmt rb0))) in
+  let '(rc', body', c3) :=
+    match rs rc with
+    | [] => (rc, body_stmts, c2)
+    | _ => let v := tmp (bump c2) in
+           (R [SAssign v (PConst (VBool true))] (Some (PName v)) [],
+            rs rc ++ [SAssign v (PNot (PNot (force rc))); SIf (PName v) body_stmts []],
+            bump c2)
+    end in
+  let '(orel, c4) :=
+    match orelse with
+    | None => ([], c3)
+    | Some o => let '(ro, c4) := cbranch o rempty None c3 in (rs (radd ro (expr_as_stmt ro)), c4)
+    end in
+  (R (rs rc' ++ [SWhile (force rc') body' orel]) None [], c4).
+Proof. reflexivity. Qed.
+
+Lemma compile_try body handlers orelse final c :
+  compile (HTry body handlers orelse final) c =
+  let '(rb, c1) :=
+    match handlers, orelse with
+    | [], Some o => ctwo o body rempty None c
+    | _, _ => cbranch body rempty None c
+    end in
+  match handlers, final with
+  | [], None | [], Some [] => (rb, c1)
+  | _, _ =>
+      let rv := tmp (bump c1) in
+      let '(hs, c2) := cchs rv handlers (bump c1) in
+      let '(orel, c3) :=
+        match handlers, orelse with
+        | _ :: _, Some o =>
+            match o with
+            | [] => ([], c2)
+            | _ => let '(ro, c3) := cbranch o rempty None c2 in (rs ro ++ [SAssign rv (force ro)], c3)
+            end
+        | _, _ => ([], c2)
+        end in
+      let '(fin, c4) :=
+        match final with
+        | None => ([], c3)
+        | Some f => let '(rf, c4) := cbranch f rempty None c3 in (rs (radd rf (expr_as_stmt rf)), c4)
+        end in
+      let body_stmts :=
+        or_pass (match orel with
+                 | [] => rs rb ++ [SAssign rv (force rb)]
+                 | _ => rs (radd rb (expr_as_stmt rb))
+                 end) in
+      (R [STry body_stmts hs orel fin] (Some (PName rv)) [(rv, true)], c4)
+  end.
+Proof. reflexivity. Qed.
